@@ -54,6 +54,18 @@ SameCongruence(r, u) ==
 CanonF(f) == LET kept == SelectSeq(f, LAMBDA t : ~(t.m /\ t.k % 2 = 0))
              IN [i \in 1..Len(kept) |-> IF kept[i].m THEN [kept[i] EXCEPT !.k = 1] ELSE kept[i]]
 
+\* the byte string of Pack.tla on real numbers (drift only: binds the encoding model to the code)
+LebBN(n) == LET RECURSIVE G(_)
+                G(m) == IF m = <<>> THEN <<>> ELSE LET dm == DivModSmall(m, 128) IN Append(G(dm[1]), dm[2])
+                g == IF n = <<>> THEN <<0>> ELSE G(n)
+            IN [i \in 1..Len(g) |-> g[i] + (IF i > 1 THEN 128 ELSE 0)]
+FacIntsBN(t) == IF t.m THEN (IF t.k % 2 = 0 THEN <<>> ELSE <<Zero>>)
+                ELSE LET pp == IF t.p = <<2>> THEN One ELSE t.p IN
+                     IF t.k > 1 THEN <<MulSmall(pp, 2), FromInt(t.k)>> ELSE <<pp>>
+PackInts(r) == [i \in 1..8 |-> LowBits(Shr(r.x, 64 * (i - 1)), 64)] \o <<r.cof, FromInt(r.len)>>
+               \o FlattenSeq([i \in 1..Len(r.f) |-> FacIntsBN(r.f[i])])
+PackBytes(r) == LET ints == PackInts(r) IN FlattenSeq([i \in 1..Len(ints) |-> LebBN(ints[i])])
+
 AOp(e) == [k |-> e.aop.k, p |-> e.aop.p, q |-> e.aop.q, par |-> ToSet(e.aop.par)]
 
 \* the inserted relation is what the abstract operation says and is a valid relation
@@ -94,7 +106,7 @@ ModelOK(e, s2, h2) ==
                      e.pub[i].len = s2.cycles[Len(s2.cycles) - Len(e.pub) + i].len
               /\ CyclesComplete(s2) /\ ExponentBalance(s2, h2) /\ PartialKeyed(s2) /\ DoublesKeyed(s2)
               /\ NoDanglingDouble(s2) /\ RevMirrors(s2) /\ LenIsRaws(s2) /\ NoAssertFails(s2)
-         [] e.op = "pack" -> e.u.len = e.r.len /\ e.u.f = CanonF(e.r.f)
+         [] e.op = "pack" -> e.u.len = e.r.len /\ e.u.f = CanonF(e.r.f) /\ e.blob = PackBytes(e.r)
          [] OTHER -> TRUE
 
 Init == l = 1 /\ st = EmptyStore /\ hist = <<>>
@@ -106,8 +118,9 @@ Next ==
          s2 == IF e.op = "reset" THEN EmptyStore
                ELSE IF e.op = "add" THEN StoreAdd(st, AOp(e), Len(hist) + 1) ELSE st
      IN /\ st' = s2 /\ hist' = h2
-        /\ Witness(l, e.op, WitnessOK(e))
-        /\ Strict(l, e.op, StrictOK(e))
+        /\ LET w == WitnessOK(e) IN
+           /\ Witness(l, e.op, w)
+           /\ Strict(l, e.op, w => StrictOK(e))      \* an invalid input says nothing about the store
         /\ Drift(l, e.op, ModelOK(e, s2, h2))
 Spec == Init /\ [][Next]_<<l, st, hist>>
 =============================================================================
